@@ -244,6 +244,75 @@ pub fn oneitem_one(ctx: &mut Ctx, v: &J, ty: &str, reg: &str, wire: &[u8], inner
         };
         if a["kind"] != bj["kind"] || (a["kind"] == "ok" && a["bytes"] != bj["bytes"]) {
             ctx.mismatch(p, v, "byte-api-and-value-api-disagree-on-encode", json!({"to_vec": a, "via_value": bj}));
+            return;
+        }
+    }
+    // the tagged byte-level entry point of the six taggable types: tag head of EVERY width + the accepted item.
+    // "Byte-level decoding equals CBOR-parsing the bytes and then converting the parsed item": ciborium parses all five head
+    // widths to Tag(n, item), so each must decode to the same value as the item alone; one more byte is extraneous data and
+    // every proper prefix is rejected (round 6: a fast path that strips the shortest-form tag head textually).
+    let tag: u64 = match ty {
+        "CoseSign" => 98,
+        "CoseSign1" => 18,
+        "CoseMac" => 97,
+        "CoseMac0" => 17,
+        "CoseEncrypt" => 96,
+        "CoseEncrypt0" => 16,
+        _ => return,
+    };
+    let heads: Vec<Vec<u8>> = {
+        let t = tag as u8;
+        let mut h = vec![vec![0xd8, t], vec![0xd9, 0, t], vec![0xda, 0, 0, 0, t], vec![0xdb, 0, 0, 0, 0, 0, 0, 0, t]];
+        if tag < 24 {
+            h.insert(0, vec![0xc0 | t]);
+        }
+        h
+    };
+    let dec_tagged = |b: &[u8]| -> J {
+        match std::panic::catch_unwind(std::panic::AssertUnwindSafe(|| decode_tagged(ty, b))) {
+            Ok(Dec::Ok(_, j)) => json!({"kind": "ok", "val": j}),
+            Ok(Dec::Err(k)) => json!({"kind": "err", "err": k}),
+            Ok(Dec::Harness(m)) => json!({"kind": "harness", "err": m}),
+            Err(_) => json!({"kind": "panic"}),
+        }
+    };
+    for head in heads {
+        let mut t = head.clone();
+        t.extend_from_slice(wire);
+        // the Value route, independent of the crate's byte layer: parse with ciborium, unwrap the tag, convert
+        let via_t = match parse(&t) {
+            Some(Value::Tag(n, inner)) if n == tag => match std::panic::catch_unwind(std::panic::AssertUnwindSafe(|| decode_value(ty, reg, *inner))) {
+                Ok(Dec::Ok(_, j)) => json!({"kind": "ok", "val": j}),
+                Ok(Dec::Err(k)) => json!({"kind": "err", "err": k}),
+                Ok(Dec::Harness(m)) => json!({"kind": "harness", "err": m}),
+                Err(_) => json!({"kind": "panic"}),
+            },
+            _ => json!({"kind": "harness", "err": "tagged wire does not parse to the tag"}),
+        };
+        let o = dec_tagged(&t);
+        ctx.evaluations += 1;
+        if via_t["kind"] == "harness" || o["kind"] == "harness" {
+            continue;
+        }
+        if !same(&via_t, &o) {
+            ctx.mismatch(p, v, "byte-api-and-value-api-disagree-on-tagged-decode", json!({"wire": hex(&t), "bytes": o, "value": via_t}));
+            return;
+        }
+        let mut ts = t.clone();
+        ts.push(0);
+        let os = dec_tagged(&ts);
+        ctx.evaluations += 1;
+        if os["kind"] != "err" || os["err"] != "ExtraneousData" {
+            ctx.mismatch(p, v, "suffix-not-rejected-as-extraneous", json!({"wire": hex(&t), "suffix": "00", "api": "tagged", "obs": os}));
+            return;
+        }
+        for k in 0..t.len() {
+            let ok = dec_tagged(&t[..k]);
+            ctx.evaluations += 1;
+            if ok["kind"] == "ok" || ok["kind"] == "panic" {
+                ctx.mismatch(p, v, "proper-prefix-not-rejected", json!({"wire": hex(&t), "cut": k, "api": "tagged", "obs": ok["kind"]}));
+                return;
+            }
         }
     }
 }
